@@ -10,6 +10,21 @@ pub(crate) fn stub_random_state() -> std::hash::RandomState {
 }
 
 #[cfg(kani)]
+pub(crate) fn stub_format(_args: std::fmt::Arguments<'_>) -> String {
+    String::new()
+}
+
+#[cfg(kani)]
 mod c12_value;
 #[cfg(kani)]
 mod c18_layout;
+#[cfg(kani)]
+mod c06_select;
+#[cfg(kani)]
+mod c02_constants;
+#[cfg(kani)]
+mod c08_roundtrip;
+#[cfg(kani)]
+mod c07_reader;
+#[cfg(kani)]
+mod c15_lexer;
